@@ -74,5 +74,6 @@ Ltac split_one :=
   end.
 
 Ltac cleaf := first [reflexivity | (exfalso; expose_ranges; lia) | (expose_ranges; f_equal; lia)].
-Ltac cfinish := repeat (split_one; zblack; eval_closed; bool_simpl; drop_wraps); cleaf.
+Ltac prune := try (exfalso; expose_ranges; lia).
+Ltac cfinish := repeat (split_one; prune; zblack; eval_closed; bool_simpl; drop_wraps); cleaf.
 
